@@ -32,3 +32,24 @@ package loglist3
 //@ ensures [a-verified-list-is-the-parse-of-exactly-the-signed-bytes] v.called && v.res == nil ==> nj.called && result0 == nj.res0 && result1 == nj.res1
 //@ at v assert [sha256-with-the-key-type-algorithm-over-the-list-bytes] v.pubKey == pubKey && v.data == llData && v.sig.Signature == rawSig && v.sig.Algorithm.Hash == tls.SHA256 && v.sig.Algorithm.Signature == (typeof(pubKey) == *rsa.PublicKey ? tls.RSA : tls.ECDSA)
 //@ at nj assert [parses-the-verified-bytes] nj.llData == llData
+
+// RootCompatible keeps a log exactly when its accepted roots are unknown or include the chain's root.
+//@ func (*LogList).RootCompatible
+//@ props C17
+//@ arith int
+//@ pure
+//@ loop-frames
+//@ frame-trusted the copied operator's Logs field is replaced by a fresh empty slice before anything is appended to it
+//@ site store:Logs#2 as keepUnknown
+//@ site store:Logs#3 as keepIncluded
+//@ site Included#1 as inc
+//@ requires ll != nil
+//@ requires forall j int :: 0 <= j && j < len(ll.Operators) ==> ll.Operators[j] != nil
+//@ requires forall j int :: 0 <= j && j < len(ll.Operators) ==> (forall k int :: 0 <= k && k < len(ll.Operators[j].Logs) ==> ll.Operators[j].Logs[k] != nil)
+//@ requires forall u string :: has(roots, u) ==> roots[u] != nil
+//@ ensures [a-non-ca-root-matches-nothing] certRoot != nil && !certRoot.IsCA ==> len(result.Operators) == 0
+//@ at keepUnknown assert [logs-with-unknown-roots-are-kept] !has(roots, l.URL)
+//@ at keepIncluded assert [otherwise-only-logs-that-accept-the-root] has(roots, l.URL) && certRoot != nil && inc.called && inc.res
+//@ at inc assert [asks-that-logs-own-root-set-about-this-root] inc.cert == certRoot && inc.p == roots[l.URL]
+//@ loop 2 step-assert [every-log-with-unknown-roots-is-kept] !has(roots, l.URL) ==> keepUnknown.called
+//@ loop 2 step-assert [every-log-that-accepts-the-root-is-kept] has(roots, l.URL) && certRoot != nil ==> inc.called && (inc.res ==> keepIncluded.called)
